@@ -11,6 +11,7 @@ import itertools
 import random
 
 from vmon import env  # noqa: F401
+from vmon.suitemon import suite_case
 from vmon.simkit import Mon, Top, spell_features
 
 from amaranth import Module, Shape, unsigned, signed, Elaboratable
@@ -54,6 +55,8 @@ def n_cases(tier):
 
 
 def gen_case(rng, tier, idx):
+    if idx == 0:
+        return {"suite": True}     # the repository\'s own test-suite under the monitors (vmon/suitemon.py)
     if idx % 5 == 4:
         return {"kind": "sig", "cls": SIG_KINDS[(idx // 5) % len(SIG_KINDS)], "pairs": 3000 if tier == "quick" else 40000}
     return {"kind": "connect", "cls": CONNECT_KINDS[idx % len(CONNECT_KINDS)]}
@@ -464,6 +467,8 @@ def run_sig(case, rng, mon):
 
 
 def run_case(case):
+    if case.get("suite"):
+        return suite_case(Mon(), ['C20'], ['C20_creates'])
     rng = random.Random(case["stim_seed"])
     mon = Mon()
     if case["kind"] == "connect":
